@@ -293,19 +293,19 @@ Fixpoint int_digits (base : Z) (s : list Z) (acc : Z) (prev : bool) : option Z :
 Definition py_int (base : Z) (s : list Z) : option Z :=
   let s := strip s in
   let '(neg, s) := match s with
-                   | 43 :: r => (false, r)
-                   | 45 :: r => (true, r)
-                   | _ => (false, s)
+                   | c :: r => if c =? 43 then (false, r) else if c =? 45 then (true, r) else (false, s)
+                   | [] => (false, s)
                    end in
   (* optional base prefix: 0o / 0O for base 8 (an underscore may follow the prefix) *)
   let '(s, after_prefix) :=
     match s with
-    | 48 :: p :: r => if (base =? 8) && ((p =? 111) || (p =? 79)) then (r, true) else (s, false)
+    | z :: p :: r =>
+        if (z =? 48) && (base =? 8) && ((p =? 111) || (p =? 79)) then (r, true) else (s, false)
     | _ => (s, false)
     end in
   let s := match s with
-           | 95 :: r => if after_prefix then r else s
-           | _ => s
+           | c :: r => if (c =? 95) && after_prefix then r else s
+           | [] => s
            end in
   match s with
   | [] => None
@@ -354,6 +354,13 @@ Definition get_uint32 st := get_uint max32 st 10.
 Definition get_uint48 st := get_uint max48 st 10.
 Definition get_string (st : tstate) (max_length : Z) : res (list Z * tstate) :=
   do ts <- get_unescaped st; do v <- as_string (fst ts) max_length; Ok (v, snd ts).
+(* Tokenizer.get_string_as_bytes(max_length): octet-valued character-string (fix 83744a5) *)
+Definition get_string_as_bytes (st : tstate) (max_length : Z) : res (list Z * tstate) :=
+  do ts <- get0 st;
+  do t <- unescape_to_bytes (fst ts);
+  if negb (is_identifier t || is_quoted t) then Lib eSyntax
+  else if negb (max_length =? 0) && (zlen (tvalue t) >? max_length) then Lib eSyntax
+  else Ok (tvalue t, snd ts).
 Definition get_identifier (st : tstate) : res (list Z * tstate) :=
   do ts <- get_unescaped st; do v <- as_identifier (fst ts); Ok (v, snd ts).
 
@@ -597,8 +604,19 @@ Definition generic_from_text (st : tstate) : res (list Z * tstate) :=
 
 (* dns.rdata.from_text for a type without a specific class: ExceptionWrapper(SyntaxError)
    turns every non-DNSException into SyntaxError; then get_eol_as_token *)
+(* ExceptionWrapper(SyntaxError).__exit__: every exception that is not an instance of
+   dns.exception.SyntaxError is replaced by SyntaxError.  The SyntaxError family among the codes
+   used by the models: SyntaxError, UnexpectedEnd, BadTTL, and dns.name LabelTooLong (1),
+   EmptyLabel (3), BadEscape (4); FormError, NameTooLong (2), UngetBufferFull, ... are wrapped. *)
+Definition in_syntax_family (e : Z) : bool :=
+  (e =? eSyntax) || (e =? eUnexpectedEnd) || (e =? eBadTTL) || (e =? 1) || (e =? 3) || (e =? 4).
+
 Definition wrap_syntax {A} (r : res A) : res A :=
-  match r with Internal _ => Lib eSyntax | _ => r end.
+  match r with
+  | Internal _ => Lib eSyntax
+  | Lib e => if in_syntax_family e then Lib e else Lib eSyntax
+  | Ok a => Ok a
+  end.
 
 Definition rdata_from_text_generic (text : list Z) : res (list Z) :=
   wrap_syntax
@@ -758,6 +776,8 @@ Fixpoint script (ops : list obs) (st : tstate) (last : option token) : list obs 
       | I 18 => step (get_string st 255) obs_of_text none
       | I 19 => step (get_uint max16 st 8) I none
       | I 20 => step (get_string_encoded st 0) B none
+      | I 21 => step (get_string_as_bytes st 0) B none
+      | I 22 => step (get_string_as_bytes st 255) B none
       | _ => [E eBadCase]
       end
   end.
